@@ -23,7 +23,7 @@ RULE = ("drawing programs over a 6x6 grid obtained by embedding random circuits 
 ASSUMPTIONS = [
     "schemdraw places two-terminal symbols given by .endpoints(p, q) with start = p and end = q (trusted base; confirmed by the monitor reading absanchors)",
     "interior T-junctions are not claimed to connect; generated wires only meet at endpoints",
-    "closed switches (1e-12 Ohm) make the system ill-conditioned: structure is always judged, the numerical solution only when kappa <= 1e8",
+    "a closed switch depicts an ideal connection (0 Ohm), an open one an open circuit; the numerical solution is judged when kappa <= 1e8",
 ]
 N_PROG = {'quick': 144, 'thorough': 2400}
 W_RES = 1e-3
@@ -54,7 +54,7 @@ def random_drawing_circuit(rng, family=None, max_nodes=4, max_comps=6):
     # occasionally a switch or a labelled wire
     comps = [c for c in cd['components'] if c['ctor'] == 'resistor']
     if comps and rng.random() < 0.3:
-        rng.choice(comps)['args']['R'] = rng.choice([math.inf, 1e-12])
+        rng.choice(comps)['args']['R'] = rng.choice([math.inf, 0.0])
     if rng.random() < 0.12:
         # a passive component bridged by wires: both of its terminals end up on the same electrical node
         two = [c for c in cd['components'] if c['ctor'] != 'ground']
@@ -125,6 +125,10 @@ def lib_component_to_desc(comp):
     if t in ('resistor', 'conductance', 'capacitor', 'inductance', 'lamp', 'resistive_load', 'dc_voltage_source', 'ac_voltage_source', 'dc_current_source',
              'ac_current_source', 'periodic_voltage_source', 'periodic_current_source'):
         args = v
+        if t == 'resistor' and 0 <= float(v.get('R', 1)) < 1e-9:
+            # how small a resistance stands for a closed switch is the library's choice; whether the choice keeps the circuit
+            # 'electrically identical' is decided by the solved numbers (solve_and_compare), not by the value itself
+            args = {**v, 'R': 0.0}
     elif t == 'impedance':
         args = {'Z': [v['R'], v['X']]}
     elif t == 'admittance':
